@@ -49,6 +49,14 @@
                                                                the model's expectation at the moment it was compared with the real
                                                                observation after item k / at the end of the schedule
                   V <sid> z <n>                                number of V i lines of the schedule
+                  M <line>                                     the MODEL's own run of the schedule rendered in the harness's observed.txt
+                                                               format (S C H I X T L K E Z lines): the expected observation after every
+                                                               item, and an epilogue: the calls the harness made in its epilogue (echoed
+                                                               E .. call lines) are made on the model, one at a time, each to completion,
+                                                               every enabled thread running to completion in between (E begin/late/call/
+                                                               probe/final/stuck/tab lines with the model's results). lib/schedtie.py
+                                                               evaluates the property oracles on these traces of the proved model
+                                                               (oracle self-test). A model/real difference in an epilogue call: D kind epi.
                   (V lines exist for lib/coqeval.py: the same model items are evaluated INSIDE Coq and compared)
    trace prints   P <sid> <events> fresh=<v> wf=<v> c01=<v> once=<v> fail=<v> giveup=<v>      v: - (holds at every prefix) or
                                                                <n>@<k>: shortest offending prefix has n events, its last event
@@ -508,10 +516,83 @@ let check (file : ostring) =
     List.iter (fun (tag, it) -> incr nlogged; Printf.printf "V %s i %c %s\n" !sid tag (tok_of_item it)) (List.rev !applied);
     applied := [] in
   log_items := true;
+  (* -- the model's own trace in the harness's format (M lines) -- *)
+  let order : int list ref = ref [] in             (* call threads in the order they were issued *)
+  let es : mstate option ref = ref None in         (* epilogue state of the model (the compared state !s is left alone) *)
+  let eidx = ref 0 and seen : int list ref = ref [] and ecalls = ref 0 and got_m = ref 0 in
+  let stuck_done = ref false and last_tab = ref (-1) in
+  let m_obs k (o : obs) =
+    Printf.printf "M X %d\n" k;
+    List.iter (fun (t, st) -> Printf.printf "M T %d %s\n" t (tok_of_stat st)) o.o_thr;
+    List.iter (fun (n, z, ks) -> Printf.printf "M L %s %d %d%s\n" n z (List.length ks) (String.concat "" (List.map (fun k -> " " ^ k) ks))) o.o_tab;
+    Printf.printf "M K %d\n" (if o.o_crashed then 1 else 0) in
+  let ev () = let k = !eidx in incr eidx; k in
+  let quiet f = let l = !log_items in log_items := false; let r = (try f () with e -> log_items := l; raise e) in log_items := l; r in
+  let finished_tids (m : mstate) = List.filter_map (fun (t, th) -> match th.t_pc with PFin _ -> Some t | _ -> None) (threads_sorted m.s) in
+  (* every enabled thread (and a GC pass in progress) runs until nothing moves *)
+  let free_run (m : mstate) : mstate =
+    let rec go m fuel =
+      if fuel = 0 then m else
+      let m = if m.gp >= 0 then settle_forced !mi (apply !mi m HGcRun) 64 else m in
+      match List.filter (fun t -> lk_enabled m.s (nat_of_int t)) (List.map fst (threads_sorted m.s)) with
+      | [] -> if m.gp >= 0 then go m (fuel - 1) else m
+      | t :: _ -> go (settle_forced !mi (apply !mi m (HRun t)) 64) (fuel - 1) in
+    go m 2000 in
+  let late (m : mstate) =
+    List.iter (fun t ->
+        if not (List.mem t !seen) then
+          match List.assoc_opt t (threads_sorted m.s) with
+          | Some { t_pc = PFin r; _ } -> seen := t :: !seen; Printf.printf "M E %d late %d %d %s\n" (ev ()) t (if r.r_ok then 1 else 0) (tok_of_err r.r_err)
+          | _ -> ()) (List.rev !order) in
+  let stuck (m : mstate) =
+    if not !stuck_done then begin
+      stuck_done := true;
+      if not m.s.l_shut then
+        List.iter (fun (t, th) -> match th.t_pc with PAcqWait _ -> Printf.printf "M E %d stuck %d\n" (ev ()) t | _ -> ()) (threads_sorted m.s)
+    end in
+  let epilogue_line (toks : ostring list) =
+    match toks, !es with
+    | [_; "begin"], _ ->
+        eidx := !cur_k + 1; seen := finished_tids !s; stuck_done := false; last_tab := -1; got_m := 0;
+        Printf.printf "M E %d begin\n" (ev ());
+        let m = quiet (fun () -> free_run !s) in
+        late m; es := Some m
+    | [rk; "call"; op; name; key; size; rok; rerr; tag], Some m when not m.s.l_crashed ->
+        if tag = "final" || tag = "unfinal" then stuck m;
+        let t = 100 + !ecalls in incr ecalls;   (* small: thread ids are unary nats in the extracted model *)
+        let m = quiet (fun () ->
+            let m = settle_forced !mi (apply !mi m (HCall (t, op_of_toks op name key size))) 64 in
+            let rec go m fuel = if fuel = 0 || lk_finished m.s (nat_of_int t) || not (lk_enabled m.s (nat_of_int t)) then m
+              else go (settle_forced !mi (apply !mi m (HRun t)) 64) (fuel - 1) in
+            go m 64) in
+        let (ok, err) = match List.assoc_opt t (threads_sorted m.s) with
+          | Some { t_pc = PFin r; _ } -> (r.r_ok, tok_of_err r.r_err) | _ -> (false, "pending") in
+        Printf.printf "M E %d call %s %s %s %s %d %s %s\n" (ev ()) op name key size (if ok then 1 else 0) err tag;
+        if ok && (tag = "probe" || tag = "final") then incr got_m;
+        if (ok <> (rok = "1")) || err <> rerr then begin
+          Printf.printf "D %s %s epi e%s exp=%d_%s got=%s_%s\n" !sid rk rk (if ok then 1 else 0) err rok rerr; incr ndiff;
+          if !first = None then first := Some (int_of_string rk, "epi")
+        end;
+        let m = quiet (fun () -> free_run m) in
+        late m; es := Some m
+    | [_; ("probe" | "final" as what); name; rsize; _; _], Some m ->
+        let (size, nkeys) = match List.filter (fun (n, _, _) -> n = name) (observe m).o_tab with
+          | (_, z, ks) :: _ -> (z, List.length ks) | [] -> (int_of_string rsize, 0) in
+        Printf.printf "M E %d %s %s %d %d %d\n" (ev ()) what name size (max 0 (nkeys - !got_m)) !got_m;
+        got_m := 0
+    | rk :: "tab" :: _, Some m ->
+        if int_of_string rk <> !last_tab then begin
+          last_tab := int_of_string rk;
+          stuck m;
+          let k = ev () in
+          List.iter (fun (n, z, ks) -> Printf.printf "M E %d tab %s %d %d%s\n" k n z (List.length ks) (String.concat "" (List.map (fun k -> " " ^ k) ks))) (observe m).o_tab
+        end
+    | _ -> () in
   let flush_block () =
     (match !blk with
      | Some got ->
          flush_items ();
+         m_obs !cur_k (observe !s);
          Printf.printf "V %s o %d %s\n" !sid !cur_k (obs_line !s);
          let got = { got with o_thr = List.sort compare got.o_thr; o_tab = List.sort compare got.o_tab } in
          let ds = compare_obs !sid !cur_k (observe !s) got in
@@ -523,6 +604,8 @@ let check (file : ostring) =
   let finish complete =
     if !active then begin
       flush_block ();
+      (match !es with Some m when complete -> stuck m | _ -> ());
+      if complete then print_endline "M Z";
       (match !bad with Some m -> Printf.printf "B %s %s\n" !sid m | None -> ());
       (match !first with
        | None -> Printf.printf "R %s ok %d %d\n" !sid !nitems (if complete then 1 else 0)
@@ -542,12 +625,17 @@ let check (file : ostring) =
          | ["S"; id] ->
              finish false;
              sid := id; s := m_init; mi := { mi = Z0; nsh = 1 }; cur_k := -1; blk := None; ndiff := 0; first := None; nitems := 0; bad := None; active := true;
-             applied := []; nlogged := 0
-         | ["C"; v] -> mi := { !mi with mi = z_of_int (int_of_string v) }
-         | ["H"; v] -> mi := { !mi with nsh = max 1 (int_of_string v) }
+             applied := []; nlogged := 0;
+             order := []; es := None; ecalls := 0;
+             Printf.printf "M S %s\n" id
+         | ["C"; v] -> mi := { !mi with mi = z_of_int (int_of_string v) }; Printf.printf "M C %s\n" v
+         | ["H"; v] -> mi := { !mi with nsh = max 1 (int_of_string v) }; Printf.printf "M H %s\n" v
+         | "E" :: rest when !active -> flush_block (); epilogue_line rest
          | "I" :: k :: rest when !active ->
              flush_block ();
              let it = hitem_of_toks rest in
+             (match it with HCall (t, _) -> order := t :: !order | _ -> ());
+             Printf.printf "M I %s %s\n" k (String.concat " " rest);
              (* forced moves are made here after every item (as the real goroutines make them); the echoed ones are skipped *)
              let s' = if is_forced it then !s else settle_forced !mi (apply !mi !s it) 64 in
              List.iter print_endline (ghost_lines (!sid ^ " ") (int_of_string k) (new_events !s.s s'.s));
